@@ -26,6 +26,23 @@ type FuncInfo struct {
 	Pkg  *packages.Package
 	Decl *ast.FuncDecl
 	Obj  *types.Func
+	// Lit is set for pseudo entries describing a function literal (Decl is the enclosing declaration)
+	Lit    *ast.FuncLit
+	LitSig *types.Signature
+}
+
+// Sig returns the signature of the function (of the literal for pseudo entries).
+func (fi *FuncInfo) Sig() *types.Signature {
+	if fi.LitSig != nil {
+		return fi.LitSig
+	}
+	return fi.Obj.Type().(*types.Signature)
+}
+
+// LitInfo builds a pseudo FuncInfo for a function literal inside fi.
+func (fi *FuncInfo) LitInfo(lit *ast.FuncLit, n int) *FuncInfo {
+	sig, _ := fi.Pkg.TypesInfo.Types[lit].Type.(*types.Signature)
+	return &FuncInfo{Key: fmt.Sprintf("%s$lit%d", fi.Key, n), Pkg: fi.Pkg, Decl: fi.Decl, Obj: fi.Obj, Lit: lit, LitSig: sig}
 }
 
 type Prog struct {
@@ -39,9 +56,11 @@ type Prog struct {
 	// named product types (for CHA-style interface resolution)
 	named []*types.TypeName
 
-	implCache map[*types.Func][]*types.Func
-	cg        *CallGraph
-	nFuncs    int
+	implCache  map[*types.Func][]*types.Func
+	cg         *CallGraph
+	fieldCache map[*types.Var][]types.Type
+	produce    map[string]map[string]bool
+	nFuncs     int
 }
 
 func shortPath(p string) string {
@@ -63,7 +82,26 @@ func fkey(f *types.Func) string {
 	if f == nil {
 		return ""
 	}
-	return shorten(f.Origin().FullName())
+	return stripTypeArgs(shorten(f.Origin().FullName()))
+}
+
+// stripTypeArgs removes [...] type parameter/argument lists from a key.
+func stripTypeArgs(s string) string {
+	var b strings.Builder
+	depth := 0
+	for _, c := range s {
+		switch c {
+		case '[':
+			depth++
+		case ']':
+			depth--
+		default:
+			if depth == 0 {
+				b.WriteRune(c)
+			}
+		}
+	}
+	return b.String()
 }
 
 func isProductPath(p string) bool {
